@@ -16,6 +16,7 @@ RUNS = {
     "C11": [
         {"name": "K6-chunk", "mode": "kchunk", "budget": (20000, 400000), "nontrivial": r"calls=\d+@\d+,", "keyfn": "generic"},
         {"name": "K6-client-io", "mode": "kneg", "budget": (1500, 30000), "nontrivial": r"ok=1", "keyfn": "generic"},
+        {"name": "K3-large-transfers-over-both-read-paths", "mode": "k3", "budget": (60, 1500), "nontrivial": r"recv\d+=(msg|proto)", "keyfn": "generic"},
         {"name": "K7-messages-intact-while-in-use", "mode": "kalias", "budget": (96, 1600), "nontrivial": r"answered=1", "keyfn": "generic"},
     ],
     "C12": [
@@ -70,6 +71,7 @@ RUNS = {
     ],
     "C19": [
         {"name": "K8-readdir", "mode": "k19", "budget": (600, 6000), "nontrivial": r"pages=([3-9]|\d\d)", "keyfn": "generic"},
+        {"name": "K8-mapper-concurrent", "mode": "kmapc", "budget": (30, 600), "nontrivial": r".", "keyfn": "generic"},
         {"name": "K4-readdir-replies-within-msize", "mode": "k13", "budget": (60, 1500), "nontrivial": r"^rtyp=(117|41) ", "keyfn": "k4"},
         {"name": "K8-mapper-never-forgets", "mode": "kmapbig", "budget": (3, 40), "nontrivial": r".", "keyfn": "generic"},
         {"name": "K8-qid-type-of-every-host-file-kind", "mode": "kltype", "budget": (2, 20), "nontrivial": r"kind=", "keyfn": "generic"},
